@@ -125,6 +125,9 @@ def check(pm: ProgramModel, ctx: Ctx) -> None:
         ctx.check(not d3, "C05-SIBLING", "parse_json=transform", loc(pj.unit.path, pj.node),
                   "parsing the loaded object gives the same model as reading the file",
                   bad=f"parse_json differs from transform: {d3[:2]}")
+    if ctx.tier == "thorough":
+        cd.thorough_pairs(mb, BINARY_LOGICAL, "VOC")
+        cd.thorough_kind_pairs(mb, [D(1, 1, 1), D(0, 1, 1), D(1, 1, 2), D(1, 2, 2), D(0, 1, 2), D(2, 3, 3), D(0, 2, 2), D(1, -1, 2)])
     cd.finish_unowned()
     ctx.analysed["C05:compositions"] = cd.n
     ctx.floor(rule, "obligations", len(ctx.obligations), 40)
